@@ -26,8 +26,8 @@ func (c *Ctx) synTraceRound(b *SynBatch, cases []*SynCase, hs []*synHistory, wha
 	c.recordSynTraces(b, hs)
 	for _, ideal := range modes {
 		for n, h := range c.validateSynTraces(cases, hs, ideal, false) {
-			if n >= 12 {
-				// a dozen confirmed reports per round say what there is to say; every further
+			if n >= 5 {
+				// five confirmed reports per round say what there is to say; every further
 				// confirmation costs a build and, for a parser that hangs, a watchdog period
 				c.Add("rejected_traces_not_confirmed_individually", 1)
 				continue
